@@ -258,7 +258,7 @@ reg("C19",
                  "IPv6 resolver addresses are outside the model (don't-care)"],
     trusted_base=["hook: /repo/verif_driver.go and internal/resolver/verif_export.go (build tag verif)"],
     level_text="duration_string_parses, rate_print_parse_closed, maxbody_notation (every n, every documented unit spelling, any blanks), dnsttl_meaning (-1, 0, every printed duration), rate_meaning, rate_default_unit, rate_bare_unit(+values), rate_zero_unlimited, rate_infinity_unlimited, rate_rejects_malformed(+_duration), headers_set_wellformed, headers_accumulate, connect_to_map, connect_to_rejects_wrong_arity, resolver_addrs_default_port are proved in Coq for all strings about byte-level Gallina models of the flag parsers; the models are compared with flag.Value.Set of the real types (through the verif driver of package main) on every run and each stored value is judged against the generator's intent by a checker defined in Coq.",
-    technique="Coq proofs over byte-string parser models; differential correspondence through the package-main driver",
+    technique="Coq proofs over byte-string parser models (incl. Duration.String / ParseDuration round trip); differential correspondence through the package-main driver and the attack command",
     timeout={"quick": 600, "thorough": 3000})
 
 reg("C06",
@@ -297,7 +297,7 @@ reg("C14",
                  "the generated easyjson object decoder is modelled (Model/JsonTarget.v over the JSON reader of Model/Json.v) and, on every run, compared line by line with encoding/json as an independent reader (diff 21); the model's encoder is compared byte for byte with the real encoder's lines wherever the order of header members is determined, i.e. at most one key (diff 22)",
                  "strings.TrimSpace restricted to ASCII white space"],
     level_text="http_decodes_described / http_decodes_described_bytes: for EVERY well-formed file (lines classified by what TrimSpace leaves of them: blank, comment, request, header, @body; comments and blank lines in every legal position; any indentation), every default body/header set and every file map, the model of the http targeter (bufio.ScanLines, the peeking scanner with its empty-string sentinel, the request/header/body state machine, default merge) returns exactly the described targets in order and then ErrNoTargets - proved in Coq by induction over the file; json_target_roundtrip (every target in the domain written by the JSON target encoder reads back as the same target), json_encoder_writes_lines, json_targets_stream (a stream of encoded targets yields exactly them, defaults merged, then exhaustion) and json_defaults_merge for the JSON format; comment_after_request_refuted (the pinned peeking code). Independence of earlier targets and defaults is structural in the model (values) and is decided on the real targeters by re-inspection in the tie.",
-    technique="Coq proof by induction over well-formed files on a model of the parser state machine; differential correspondence with aliasing re-inspection",
+    technique="Coq proof by induction over well-formed files on a model of the parser state machine; round-trip and stream theorems of the JSON target codec; differential correspondence with aliasing re-inspection",
     timeout={"quick": 600, "thorough": 3000})
 
 _ATTACK_RULE = ("scripted attacks of the real Attacker under testing/synctest (virtual time; after every environment action the "
@@ -364,7 +364,7 @@ reg("C05", gen=gen_skel, obligation_files=["Props/C05.v", "Gen/Skel.v"],
                  "the Go memory model is not formalised: the interleaving semantics of the skeletons (Model/Skel.v, Model/SkelData.v) is sequentially consistent"],
     trusted_base=_T2_TB,
     level_text="same_section_sound is proved in Coq for every skeleton, thread count and interleaving (the timestamp read, sequence read and increment form a critical section); section_orders_stamps mechanises the reduction: for every accepted skeleton, any number of threads, any interleaving and any clock that never runs backwards, the sequence numbers read are pairwise different and ordered like the timestamps (hit_stamps_ordered: for the skeleton regenerated from the current source); hit_same_section is re-proved by reflection on the skeleton regenerated from the current source on every run; hit_ordered and ts_bounds are proved as invariants of the attack LTS where the section is one step. Tie: translator (T2) + stress runs judged by a checker defined in Coq.",
-    technique="Coq soundness proof of a static checker + reflection on a skeleton regenerated from source; LTS invariant; stress",
+    technique="Coq soundness proof of a static checker + mechanised reduction to ordered stamps (all interleavings, any clock) + reflection on a skeleton regenerated from source; LTS invariant; stress",
     timeout={"quick": 600, "thorough": 3000})
 reg("C15", gen=gen_skel, obligation_files=["Props/C15.v", "Gen/Skel.v"],
     rule="T2: the skeletons of the three targeter closures are regenerated and lockset_ok must hold of each by reflection. T1: 1..64 "
@@ -495,5 +495,5 @@ reg("C09", needs_cli=True,
     diffs={10: "gob frame boundaries of the model do not cover the record boundaries", 11: "JSON line count differs from the record count"},
     assumptions=["gob payload is opaque; only its length-prefixed framing is modelled"],
     level_text="json_cut_decodes_written (end to end on the JSON codec model: a stream of results cut at any byte offset decodes to exactly the results written completely before the cut) and csv_cut_at_boundary (a CSV stream cut at a record boundary decodes to the records written so far); frames_cut_prefix (length-prefixed frames: every cut yields exactly the complete frames before it) and lines_cut_prefix (newline framing) are proved in Coq for every stream and every cut offset; json_no_raw_newline (proved: the JSON encoder's text of a result in the domain contains no raw line break) shows it emits exactly one line per record; tie: every cut offset of every generated stream decoded by the real decoders.",
-    technique="Coq prefix lemmas for the two framings over all cut offsets; exhaustive cut enumeration on the implementation",
+    technique="Coq prefix lemmas for the two framings over all cut offsets, composed with the JSON / CSV codec round trips into end-to-end cut theorems; exhaustive cut enumeration on the implementation",
     timeout={"quick": 900, "thorough": 3000})
